@@ -390,6 +390,21 @@ def run(repo, rep, tier):
         recv = U(fills[0].func.value.value) if isinstance(fills[0].func.value, ast.Attribute) else ""
         rebound = [st for st in body_walk(wr) if isinstance(st, ast.Assign) and st is not allocs[0] and any(U(t) == recv for t in st.targets)]
         ok = recv in names and not rebound
+    # every anchor of the open document is written: the fill is not conditional
+    q_ = fills[0]
+    conds_ = []
+    loop_ = None
+    while getattr(q_, "_parent", None) is not None and q_ is not wr:
+        prev_, q_ = q_, q_._parent
+        if isinstance(q_, ast.If):
+            conds_.append(U(q_.test))
+        if isinstance(q_, (ast.For, ast.While)) and loop_ is None:
+            loop_ = q_
+    skips_ = [n for n in ast.walk(loop_) if isinstance(n, (ast.Continue, ast.Break))] if loop_ is not None else []
+    okc = loop_ is not None and not conds_ and not skips_ and "merge_cells()" in U(loop_.iter if isinstance(loop_, ast.For) else loop_.test)
+    rep.ob("C12.R3", loop_ or wr, "save writes one range for every merge anchor of the open document (no filter)", okc,
+           "" if okc else f"a range is written only when {conds_ or 'the loop does not skip it'}: a merge that is reported on the open document is missing after save and reopen",
+           key="C12.R3@writer:all-anchors")
     rep.ob("C12.R3", fills[0], "the merge map filled on save is a MergeRegionMapArchive allocated in the same call", ok,
            "" if ok else "an existing archive is looked up and refilled on some path: tables created by add_table()/add_sheet() copy the source's "
            "merge_region_map reference, so two tables write their rectangles into one archive and the last saved wins", key="C12.R3@writer:fresh-map")
@@ -445,6 +460,7 @@ def run(repo, rep, tier):
 
 
 VARIANTS = [
+    M("writer-filters-ranges", "model.py", "            size = merge_cells.size(row_col)\n            cell_id =", "            size = merge_cells.size(row_col)\n            if row_col[0] + size[0] > self.number_of_columns(table_id):\n                continue\n            cell_id =", "C12.R3"),
     M("reader-skips-region-map-when-owner-merges", "model.py", "        if base_data_store.merge_region_map.identifier == 0:\n            return\n\n        cell_ranges =",
       "        if self._merge_cells[table_id].merge_cells() or base_data_store.merge_region_map.identifier == 0:\n            return\n\n        cell_ranges =", "C12.R3"),
     M("writer-refills-existing-map", "model.py", """        merge_map_id, merge_map = self.objects.create_object_from_dict(
